@@ -334,6 +334,8 @@ pub enum Edit {
     RemoveRate,
     /// different bytes with an mtime older than the previous one (a restored backup, `cp -p`, `mv` of a staged file)
     WriteOlderMtime(u8),
+    /// a perfectly good variant plus a comment holding a byte that is not UTF-8: the file cannot be read as text
+    WriteNonUtf8(u8),
 }
 
 #[derive(Serialize, Deserialize, Debug, Clone)]
@@ -355,6 +357,7 @@ pub fn reload_strategy() -> impl Strategy<Value = ReloadCase> {
         2 => (1u8..60).prop_map(Edit::SetRate),
         1 => Just(Edit::RemoveRate),
         2 => (0u8..5).prop_map(Edit::WriteOlderMtime),
+        2 => (0u8..5).prop_map(Edit::WriteNonUtf8),
     ];
     (prop::bool::weighted(0.3), 0u8..5, 1u8..60, prop::collection::vec(edit, 1..=12)).prop_map(|(json, initial, initial_rate, edits)| ReloadCase { json, initial, initial_rate, edits })
 }
@@ -470,6 +473,13 @@ fn check_reload_in(dir: &Path, c: &ReloadCase, obs: &mut Obs) -> CaseResult {
     let t0 = SystemTime::UNIX_EPOCH + Duration::from_secs(1_600_000_000);
     let mut clock = 0u64;
     let mut older = 0u64;
+    let set_file_raw = |bytes: &[u8], mtime: SystemTime| {
+        std::fs::write(&path, bytes).unwrap();
+        let f = std::fs::OpenOptions::new().write(true).open(&path).unwrap();
+        f.set_modified(mtime).unwrap();
+    };
+    // Some(bytes) while the file holds bytes that are not UTF-8 text
+    let mut file_raw: Option<Vec<u8>> = None;
     let set_file = |text: &str, mtime: SystemTime| {
         std::fs::write(&path, text).unwrap();
         let f = std::fs::OpenOptions::new().write(true).open(&path).unwrap();
@@ -497,7 +507,20 @@ fn check_reload_in(dir: &Path, c: &ReloadCase, obs: &mut Obs) -> CaseResult {
     for (i, e) in c.edits.iter().enumerate() {
         clock += 10;
         let fresh = t0 + Duration::from_secs(clock);
+        if !matches!(e, Edit::Touch | Edit::Nop | Edit::Delete) {
+            file_raw = None;
+        }
         match e {
+            Edit::WriteNonUtf8(v) => {
+                let mut b = variant_text(*v, file_rate, c.json).into_bytes();
+                b.extend_from_slice(if c.json { b"\n\xE9\n" } else { b"\n# caf\xE9\n" });
+                file_variant = None;
+                file_text = format!("<not UTF-8: variant {}>", v);
+                file_mtime = fresh;
+                file_exists = true;
+                set_file_raw(&b, file_mtime);
+                file_raw = Some(b);
+            }
             Edit::WriteValid(v) => {
                 file_variant = Some(*v % 5);
                 file_text = variant_text(*v, file_rate, c.json);
@@ -516,7 +539,10 @@ fn check_reload_in(dir: &Path, c: &ReloadCase, obs: &mut Obs) -> CaseResult {
             Edit::Touch => {
                 if file_exists {
                     file_mtime = fresh;
-                    set_file(&file_text, file_mtime);
+                    match &file_raw {
+                        Some(b) => set_file_raw(b, file_mtime),
+                        None => set_file(&file_text, file_mtime),
+                    }
                     touched = true;
                 }
             }
@@ -532,6 +558,7 @@ fn check_reload_in(dir: &Path, c: &ReloadCase, obs: &mut Obs) -> CaseResult {
                 if file_exists {
                     std::fs::remove_file(&path).unwrap();
                     file_exists = false;
+                    file_raw = None;
                 }
             }
             Edit::WriteSameMtime(v) => {
@@ -576,6 +603,10 @@ fn check_reload_in(dir: &Path, c: &ReloadCase, obs: &mut Obs) -> CaseResult {
             Expect::Error
         } else if file_mtime == seen_mtime {
             Expect::Unchanged // same mtime: unchanged by the documented detection rule
+        } else if file_raw.is_some() {
+            // unreadable as text: reported, nothing remembered but the mtime
+            seen_mtime = file_mtime;
+            Expect::Error
         } else {
             seen_mtime = file_mtime;
             if file_text == seen_text {
@@ -635,6 +666,7 @@ fn check_reload_in(dir: &Path, c: &ReloadCase, obs: &mut Obs) -> CaseResult {
     obs.class_if(touched, "touch-without-change");
     obs.class_if(c.json, "json");
     obs.class_if(c.edits.iter().any(|e| matches!(e, Edit::WriteOlderMtime(_))), "changed-file-with-older-mtime");
+    obs.class_if(c.edits.iter().any(|e| matches!(e, Edit::WriteNonUtf8(_))), "file-not-utf8");
     obs.class_if(c.edits.iter().any(|e| matches!(e, Edit::WriteSameMtime(_))), "same-mtime-different-bytes(modelled)");
     Ok(())
 }
